@@ -186,6 +186,11 @@ type state struct {
 	indexed   []map[int]bool
 	attempted map[int]bool
 	gone      map[int]string
+	// acked[id]: a Delete(default mark) / Drop of id returned nil and no new
+	// upload was stored since: with every shard on its metabase and no injected
+	// read fault the object must not be read (whatever the modes were when the
+	// removal was acknowledged – a removal that cannot be applied must fail)
+	acked map[int]string
 	// marked[id]: gone because of a Delete(default) mark (not a tombstone, not a drop)
 	labels map[string]bool
 	trace  []string
@@ -254,16 +259,17 @@ func (s *state) exec(t *rapid.T, i int, o op) {
 		for k := range s.e.Sh {
 			modesBefore[k] = s.e.Mode(k)
 		}
+		s.e.TakeCalls()
 		err := s.e.E.Put(ctx, s.objs[o.ID], nil)
 		after := s.e.Holders(a)
-		for _, h := range after {
-			was := false
-			for _, b := range before {
-				was = was || b == h
-			}
-			if !was {
-				s.indexed[h][o.ID] = !modesBefore[h].NoMetabase()
-				if modesBefore[h].NoMetabase() {
+		// shards whose blob storage accepted a write of this object during the Put
+		// (also an overwrite of a blob-only copy, which gets indexed thereby)
+		storedAnew := false
+		for _, c := range s.e.TakeCalls() {
+			if c.Method == "Put" && c.Addr == a && c.Err == nil && s.e.Phys(c.Shard, a) {
+				storedAnew = true
+				s.indexed[c.Shard][o.ID] = !modesBefore[c.Shard].NoMetabase()
+				if modesBefore[c.Shard].NoMetabase() {
 					s.labels["stored-blob-only-on-degraded-shard"] = true
 				}
 			}
@@ -273,7 +279,10 @@ func (s *state) exec(t *rapid.T, i int, o op) {
 			if len(after) == 0 {
 				s.failf(t, "%s: Put returned nil but no shard holds the object", step)
 			}
-			if g := s.gone[o.ID]; g != "" && len(after) > len(before) {
+			if storedAnew {
+				delete(s.acked, o.ID)
+			}
+			if g := s.gone[o.ID]; g != "" && storedAnew {
 				// a new upload was acknowledged AND stored: the object is "stored" again
 				// (whether a Put after a tombstone may be accepted – here only when the
 				// shards knowing the tombstone have no metabase – is not C20's subject)
@@ -304,6 +313,19 @@ func (s *state) exec(t *rapid.T, i int, o op) {
 			err = s.e.E.Put(ctx, s.objs[o.ID], nil)
 		}
 		s.attempted[id] = true
+		existsFault := false
+		for _, sh := range s.e.Sh {
+			existsFault = existsFault || sh.FailExists
+		}
+		if existsFault {
+			// (a shard whose existence check fails with an I/O error is skipped by
+			// Delete/Drop, which still return nil – reported as an observation, not asserted)
+			s.labels["removal-with-failing-exists(not-asserted)"] = true
+		}
+		if err == nil && !existsFault && (o.K == "drop" || (o.K == "delete" && o.Mark != "redundant")) {
+			// acknowledged forced removal: must be effective (see checkReads)
+			s.acked[id] = o.String()
+		}
 		s.trace = append(s.trace, fmt.Sprintf("%s [%s] -> %s", step, s.modesStr(), short(err)))
 		// a tombstone Put also returns nil when the tombstone merely exists already
 		// somewhere: it counts only when every shard physically holds it now; a Drop
@@ -410,8 +432,26 @@ func (s *state) checkReads(t *rapid.T, step string) {
 			}
 		}
 		modesBefore := s.modesStr()
+		plain := func() bool {
+			for k, sh := range s.e.Sh {
+				if sh.FailRead || s.e.Mode(k).NoMetabase() {
+					return false
+				}
+			}
+			return true
+		}
+		plainBefore := plain()
 		s.e.TakeCalls()
 		rr := s.reads(id)
+		if ack := s.acked[id]; ack != "" && plainBefore && plain() {
+			s.labels["acknowledged-removal-effectiveness-checked"] = true
+			for _, r := range rr {
+				if r.cls == engx.OK {
+					s.failf(t, "%s was acknowledged (nil) but is not effective: after %s: %s(o%d) returns the object; physical holders %v, shards: %s",
+						ack, step, r.name, id, holders, modesBefore)
+				}
+			}
+		}
 		fallback := false
 		perShard := map[int]int{}
 		for _, c := range s.e.TakeCalls() {
@@ -503,7 +543,7 @@ func run(t *rapid.T, rec *ev.Recorder, k kase) ([]string, bool) {
 	}
 	defer e.Close()
 	e.LogCalls = true
-	st := &state{k: k, e: e, attempted: map[int]bool{}, gone: map[int]string{}, labels: map[string]bool{}, known: rec.Known}
+	st := &state{k: k, e: e, attempted: map[int]bool{}, gone: map[int]string{}, acked: map[int]string{}, labels: map[string]bool{}, known: rec.Known}
 	for range e.Sh {
 		st.indexed = append(st.indexed, map[int]bool{})
 	}
